@@ -111,6 +111,34 @@ Proof.
     destruct (enabled x); [inversion Hnd|]; assumption.
 Qed.
 
+(* the array semantics is the "last word written earlier" semantics *)
+Lemma cycle_write_spec c A a : cycle_ok c ->
+  fold_left arr_write (fst c) A a
+  = match cycle_write_to c a with Some v => v | None => A a end.
+Proof.
+  intros Hok. unfold cycle_write_to.
+  destruct (find (fun w => enabled w && (w_addr w =? a)) (fst c)) as [w|] eqn:E.
+  - apply find_some in E. destruct E as [Hin Hb]. apply andb_true_iff in Hb.
+    destruct Hb as [He Ha]. assert (w_addr w = a) by lia. subst a.
+    apply write_lands; assumption.
+  - apply write_untouched. intros w Hin He Heq.
+    pose proof (find_none _ _ E w Hin) as Hn. cbv beta in Hn. rewrite He in Hn. simpl in Hn. lia.
+Qed.
+
+Theorem arr_run_is_last_write A0 : forall h past A,
+  Forall cycle_ok h -> (forall a, A a = word_at A0 past a) ->
+  fst (arr_run A h) = hist_reads A0 past h.
+Proof.
+  induction h as [|c r IH]; intros past A Hok H; [reflexivity|].
+  inversion Hok as [|? ? Hc Hr]; subst. cbn [arr_run hist_reads]. unfold arr_step.
+  specialize (IH (c :: past) (fold_left arr_write (fst c) A) Hr).
+  destruct (arr_run (fold_left arr_write (fst c) A) r) as [rds A2]. simpl in *.
+  f_equal.
+  - apply map_ext. assumption.
+  - apply IH. intros a. rewrite cycle_write_spec by assumption.
+    unfold word_at. simpl. destruct (cycle_write_to c a); [reflexivity|]. apply H.
+Qed.
+
 (* ------------------------------------------------------------------ *)
 (** * Generic refinement: a machine whose read is its abstraction and whose
       single write simulates arr_write refines the array on every history   *)
@@ -256,3 +284,507 @@ Proof.
   assert (existsb (Z.eqb k) (map fst d) = true); [|congruence].
   apply existsb_exists. exists k. split; [assumption|apply Z.eqb_refl].
 Qed.
+
+Lemma sim_update_nodup d w : NoDup (map fst d) -> NoDup (map fst (sim_mem_update d w)).
+Proof. unfold sim_mem_update. destruct (enabled w); [apply pyd_set_nodup|auto]. Qed.
+
+Lemma sim_run_nodup dflt h : forall d, NoDup (map fst d) ->
+  NoDup (map fst (snd (sim_mem_run dflt d h))).
+Proof.
+  induction h as [|c r IH]; intros d H; [assumption|].
+  unfold sim_mem_run in *. cbn [mach_run]. unfold mach_step at 1.
+  assert (Hf : NoDup (map fst (fold_left sim_mem_update (fst c) d))).
+  { generalize d H. induction (fst c) as [|w ws IHw]; intros d0 H0; simpl; [assumption|].
+    apply IHw. apply sim_update_nodup. assumption. }
+  specialize (IH _ Hf).
+  destruct (mach_run (pyd_get dflt) sim_mem_update (fold_left sim_mem_update (fst c) d) r).
+  assumption.
+Qed.
+
+(* the `& bitmask` on the read port changes nothing when the data fit *)
+Lemma sim_w_write_ok dflt dw d w a : 0 <= dw -> inrange (w_data w) dw ->
+  sanitize (pyd_get dflt (sim_mem_update d w) a) dw
+  = arr_write (fun a => sanitize (pyd_get dflt d a) dw) w a.
+Proof.
+  intros Hdw Hr. unfold sim_mem_update, arr_write, upd. destruct (enabled w); [|reflexivity].
+  rewrite pyd_get_set. destruct (a =? w_addr w); [|reflexivity].
+  apply sanitize_id; assumption.
+Qed.
+
+Definition data_fit (dw : Z) (c : cycle) : Prop := Forall (fun w => inrange (w_data w) dw) (fst c).
+
+Theorem sim_w_refines_array dflt dw : 0 <= dw -> forall h h' d,
+  Forall cycle_ok h -> Forall2 cycle_perm h h' -> Forall (data_fit dw) h' ->
+  let A := fun a => sanitize (pyd_get dflt d a) dw in
+  fst (sim_mem_run_w dflt dw d h') = fst (arr_run A h)
+  /\ (forall a, sanitize (pyd_get dflt (snd (sim_mem_run_w dflt dw d h')) a) dw = snd (arr_run A h) a)
+  /\ Forall (Forall (fun v => inrange v dw)) (fst (sim_mem_run_w dflt dw d h')).
+Proof.
+  intros Hdw h h' d Hok Hp Hfit A.
+  assert (Hadm : Forall (cyc_adm (fun w => inrange (w_data w) dw) (fun _ => True)) h').
+  { apply Forall_forall. intros c Hc. rewrite Forall_forall in Hfit. split; [apply Hfit; assumption|].
+    apply Forall_forall. intros; exact I. }
+  destruct (run_refines (fun d a => sanitize (pyd_get dflt d a) dw) sim_mem_update
+              (fun _ => True) (fun w => inrange (w_data w) dw) (fun _ => True)
+              (fun s w _ Hw => conj I (fun a _ => sim_w_write_ok dflt dw s w a Hdw Hw))
+              h h' d A I (fun a _ => eq_refl) Hok Hp Hadm) as [H1 [_ H2]].
+  split; [assumption|]. split; [intros a; apply H2; exact I|].
+  clear - Hdw. unfold sim_mem_run_w. generalize d. induction h' as [|c r IH]; intros d0; cbn [mach_run].
+  - constructor.
+  - unfold mach_step at 1. specialize (IH (fold_left sim_mem_update (fst c) d0)).
+    destruct (mach_run _ sim_mem_update (fold_left sim_mem_update (fst c) d0) r). simpl in *.
+    constructor; [|assumption]. apply Forall_forall. intros v Hv. apply in_map_iff in Hv.
+    destruct Hv as [a [<- _]]. apply sanitize_range. assumption.
+Qed.
+
+(* ------------------------------------------------------------------ *)
+(** * (ii) FastSimulation's deferred write list                         *)
+
+Lemma fast_apply_ws ws : forall d,
+  fold_left fast_apply (fast_mem_ws ws) d = fold_left sim_mem_update ws d.
+Proof.
+  induction ws as [|w r IH]; intros d; [reflexivity|].
+  cbn [fold_left]. rewrite <- IH. unfold fast_mem_ws. cbn [flat_map].
+  rewrite fold_left_app. unfold sim_mem_update. destruct (enabled w); reflexivity.
+Qed.
+
+Lemma fast_step_eq_sim dflt d c : fast_mem_step dflt d c = sim_mem_step dflt d c.
+Proof.
+  unfold fast_mem_step, sim_mem_step, mach_step. rewrite fast_apply_ws. reflexivity.
+Qed.
+
+Lemma fast_run_eq_sim dflt h : forall d, fast_mem_run dflt d h = sim_mem_run dflt d h.
+Proof.
+  induction h as [|c r IH]; intros d; [reflexivity|].
+  unfold sim_mem_run in *. cbn [fast_mem_run mach_run].
+  rewrite fast_step_eq_sim. unfold sim_mem_step.
+  destruct (mach_step (pyd_get dflt) sim_mem_update d c) as [rd d']. rewrite IH. reflexivity.
+Qed.
+
+(* the generated straight-line program, for any interleaving of reads and appends *)
+Lemma fast_exec_fold dflt d prog : forall rds ws,
+  fold_left (fast_exec dflt d) prog (rds, ws)
+  = (rds ++ map (pyd_get dflt d) (prog_reads prog), ws ++ fast_mem_ws (prog_writes prog)).
+Proof.
+  induction prog as [|e r IH]; intros rds ws; simpl.
+  - rewrite !app_nil_r. reflexivity.
+  - destruct e as [a|w]; simpl; rewrite IH; unfold fast_mem_ws; simpl.
+    + rewrite <- app_assoc. reflexivity.
+    + destruct (enabled w); simpl; [rewrite <- app_assoc|]; reflexivity.
+Qed.
+
+Theorem fast_prog_step_spec dflt d prog :
+  fast_prog_step dflt d prog = fast_mem_step dflt d (prog_writes prog, prog_reads prog).
+Proof.
+  unfold fast_prog_step. rewrite fast_exec_fold. reflexivity.
+Qed.
+
+Theorem fast_refines_array dflt : forall h h' d A,
+  (forall a, pyd_get dflt d a = A a) ->
+  Forall cycle_ok h -> Forall2 cycle_perm h h' ->
+  fst (fast_mem_run dflt d h') = fst (arr_run A h)
+  /\ forall a, pyd_get dflt (snd (fast_mem_run dflt d h')) a = snd (arr_run A h) a.
+Proof. intros. rewrite fast_run_eq_sim. apply sim_refines_array; assumption. Qed.
+
+(* ------------------------------------------------------------------ *)
+(** * (iii) the chained hash map                                        *)
+
+Section HashMapFacts.
+Context {V : Type}.
+Variable hash : Z -> Z.
+Variable dfl : V.
+
+Lemma kassoc_replace (c : @chain V) k v : forall c', chain_replace c k v = Some c' ->
+  forall k', kassoc c' k' = if k' =? k then Some v else kassoc c k'.
+Proof.
+  induction c as [|[k0 v0] r IH]; intros c' H k'; simpl in H; [discriminate|].
+  destruct (k0 =? k) eqn:E.
+  - injection H as <-. simpl. destruct (k0 =? k') eqn:E1, (k' =? k) eqn:E2; try reflexivity; lia.
+  - destruct (chain_replace r k v) as [r'|] eqn:Er; [|discriminate]. injection H as <-.
+    simpl. destruct (k0 =? k') eqn:E1.
+    + destruct (k' =? k) eqn:E2; [lia|reflexivity].
+    + apply IH. reflexivity.
+Qed.
+
+Lemma kassoc_insert (c : @chain V) k v k' :
+  kassoc (chain_insert c k v) k' = if k' =? k then Some v else kassoc c k'.
+Proof.
+  unfold chain_insert. destruct (chain_replace c k v) as [c'|] eqn:E.
+  - apply kassoc_replace. assumption.
+  - simpl. rewrite (Z.eqb_sym k k'). reflexivity.
+Qed.
+
+Lemma set_nth_length {A} (l : list A) : forall n x, length (set_nth n l x) = length l.
+Proof. induction l as [|y r IH]; intros [|n] x; simpl; auto. Qed.
+
+Lemma nth_set_nth_same {A} (l : list A) : forall n x d, (n < length l)%nat ->
+  nth n (set_nth n l x) d = x.
+Proof.
+  induction l as [|y r IH]; intros [|n] x d H; simpl in *; try lia; [reflexivity|].
+  apply IH. lia.
+Qed.
+
+Lemma nth_set_nth_other {A} (l : list A) : forall n m x d, n <> m ->
+  nth m (set_nth n l x) d = nth m l d.
+Proof.
+  induction l as [|y r IH]; intros [|n] [|m] x d H; simpl; try reflexivity; try lia.
+  apply IH. lia.
+Qed.
+
+Lemma hm_pos_bound (h : @hmap V) k : h <> [] -> (hm_pos hash h k < length h)%nat.
+Proof.
+  intros H. unfold hm_pos. destruct h as [|c r]; [contradiction|].
+  assert (0 < Z.of_nat (length (c :: r))) by (simpl; lia).
+  pose proof (Z.mod_pos_bound (hash k) _ H0). lia.
+Qed.
+
+Lemma hm_insert_length (h : @hmap V) k v : length (hm_insert hash h k v) = length h.
+Proof. unfold hm_insert. apply set_nth_length. Qed.
+
+Lemma hm_insert_nonempty (h : @hmap V) k v : h <> [] -> hm_insert hash h k v <> [].
+Proof.
+  intros H E. apply (f_equal (@length _)) in E. rewrite hm_insert_length in E.
+  destruct h; [contradiction|discriminate].
+Qed.
+
+(* the hash map is a finite map, for every bucket count and hash function *)
+Theorem hm_find_insert (h : @hmap V) k v k' : h <> [] ->
+  hm_find hash (hm_insert hash h k v) k' = fmap_set (hm_find hash h) k v k'.
+Proof.
+  intros Hne. unfold hm_find, fmap_set.
+  assert (Hp : forall x, hm_pos hash (hm_insert hash h k v) x = hm_pos hash h x).
+  { intros x. unfold hm_pos. rewrite hm_insert_length. reflexivity. }
+  rewrite Hp. unfold hm_insert.
+  destruct (Nat.eq_dec (hm_pos hash h k) (hm_pos hash h k')) as [E|E].
+  - rewrite <- E. rewrite nth_set_nth_same by (apply hm_pos_bound; assumption).
+    apply kassoc_insert.
+  - rewrite nth_set_nth_other by assumption.
+    destruct (k' =? k) eqn:Ek; [|reflexivity]. assert (k' = k) by lia. subst. contradiction.
+Qed.
+
+Lemma nth_repeat_nil {A} n m : nth m (repeat (@nil A) n) [] = [].
+Proof. revert m. induction n as [|n IH]; intros [|m]; simpl; auto. Qed.
+
+Theorem hm_find_create n k : hm_find hash (@hm_create V n) k = None.
+Proof. unfold hm_find, hm_create. rewrite (@nth_repeat_nil (Z * V)). reflexivity. Qed.
+
+Theorem hm_lookup_insert (h : @hmap V) k v k' : h <> [] ->
+  hm_lookup hash dfl (hm_insert hash h k v) k'
+  = if k' =? k then v else hm_lookup hash dfl h k'.
+Proof.
+  intros Hne. unfold hm_lookup. rewrite hm_find_insert by assumption. unfold fmap_set.
+  destruct (k' =? k); reflexivity.
+Qed.
+
+Theorem hm_lookup_create n k : hm_lookup hash dfl (@hm_create V n) k = dfl.
+Proof. unfold hm_lookup. rewrite hm_find_create. reflexivity. Qed.
+
+End HashMapFacts.
+
+(* -- limbs -- *)
+Lemma join_split n : forall v, 0 <= v < 2 ^ (64 * Z.of_nat n) ->
+  join_limbs (split_limbs n v) = v.
+Proof.
+  induction n as [|n IH]; intros v Hv.
+  - simpl in *. lia.
+  - cbn [split_limbs join_limbs].
+    assert (Hpow : 2 ^ (64 * Z.of_nat (Datatypes.S n)) = 2 ^ 64 * 2 ^ (64 * Z.of_nat n)).
+    { rewrite <- Z.pow_add_r by lia. f_equal. lia. }
+    rewrite Hpow in Hv. rewrite IH.
+    + pose proof (Z.div_mod v (2 ^ 64)). lia.
+    + split; [apply Z.div_pos; lia|]. apply Z.div_lt_upper_bound; lia.
+Qed.
+
+Lemma join_zero n : join_limbs (repeat 0 n) = 0.
+Proof. induction n as [|n IH]; simpl; [reflexivity|]. rewrite IH. reflexivity. Qed.
+
+Definition c_okw (nl : nat) (w : wport) : Prop :=
+  0 <= w_addr w < 2 ^ 64 /\ 0 <= w_data w < 2 ^ (64 * Z.of_nat nl).
+Definition c_oka (a : Z) : Prop := 0 <= a < 2 ^ 64.
+
+Lemma c_key_id a : 0 <= a < 2 ^ 64 -> c_key a = a.
+Proof. intros. unfold c_key. apply Z.mod_small. assumption. Qed.
+
+Lemma c_write_ok nl (h : cmap) w : h <> [] -> c_okw nl w ->
+  c_write nl h w <> [] /\ forall a, c_oka a -> c_lookup nl (c_write nl h w) a = arr_write (c_lookup nl h) w a.
+Proof.
+  intros Hne [Ha Hd]. unfold c_write, arr_write, upd. destruct (enabled w); [|auto].
+  split; [apply hm_insert_nonempty; assumption|].
+  intros a Hoa. unfold c_lookup. rewrite hm_lookup_insert by assumption.
+  rewrite !c_key_id by assumption. destruct (a =? w_addr w); [|reflexivity].
+  apply join_split. assumption.
+Qed.
+
+Theorem comp_refines_array nl : forall h h' (s : cmap) A,
+  s <> [] -> (forall a, c_oka a -> c_lookup nl s a = A a) ->
+  Forall cycle_ok h -> Forall2 cycle_perm h h' -> Forall (cyc_adm (c_okw nl) c_oka) h' ->
+  fst (comp_mem_run nl s h') = fst (arr_run A h)
+  /\ forall a, c_oka a -> c_lookup nl (snd (comp_mem_run nl s h')) a = snd (arr_run A h) a.
+Proof.
+  intros h h' s A Hne H Hok Hp Hadm.
+  destruct (run_refines (c_lookup nl) (c_write nl) (fun s => s <> []) (c_okw nl) c_oka
+              (c_write_ok nl) h h' s A Hne H Hok Hp Hadm) as [H1 [_ H2]].
+  split; assumption.
+Qed.
+
+(* initialize_mems: an empty 256-bucket map, then one insert per item *)
+Lemma c_lookup_create nl size a : c_lookup nl (hm_create size) a = 0.
+Proof. unfold c_lookup. rewrite hm_lookup_create. apply join_zero. Qed.
+
+Lemma hm_create_nonempty {V} size : (0 < size)%nat -> @hm_create V size <> [].
+Proof. destruct size; [lia|discriminate]. Qed.
+
+Definition init_writes (init : list (Z * Z)) : list wport :=
+  map (fun kv => (fst kv, snd kv, 1)) init.
+
+Theorem c_init_spec nl size init : (0 < size)%nat ->
+  Forall (fun kv => 0 <= fst kv < 2 ^ 64 /\ 0 <= snd kv < 2 ^ (64 * Z.of_nat nl)) init ->
+  c_init nl size init <> []
+  /\ forall a, c_oka a ->
+       c_lookup nl (c_init nl size init) a = fold_left arr_write (init_writes init) (fun _ => 0) a.
+Proof.
+  intros Hs Hr. unfold c_init. fold (init_writes init).
+  apply (fold_refines (c_lookup nl) (c_write nl) (fun s => s <> []) (c_okw nl) c_oka (c_write_ok nl)).
+  - apply hm_create_nonempty. assumption.
+  - unfold init_writes. apply Forall_forall. intros w Hw. apply in_map_iff in Hw.
+    destruct Hw as [kv [<- Hin]]. rewrite Forall_forall in Hr. apply (Hr kv Hin).
+  - intros a _. apply c_lookup_create.
+Qed.
+
+(* a Python dict has unique keys, so "last insert wins" is "the item's value" *)
+Lemma assoc_notin l a : ~ In a (map fst l) -> assoc l a = None.
+Proof.
+  induction l as [|[k v] r IH]; simpl; intros H; [reflexivity|].
+  destruct (k =? a) eqn:E; [exfalso; apply H; left; lia|]. apply IH. tauto.
+Qed.
+
+Lemma init_writes_spec init : NoDup (map fst init) -> forall A a,
+  fold_left arr_write (init_writes init) A a
+  = match assoc init a with Some v => v | None => A a end.
+Proof.
+  induction init as [|[k v] r IH]; intros Hnd A a; simpl; [reflexivity|].
+  inversion Hnd as [|? ? Hn Hr]; subst. unfold init_writes in IH. rewrite IH by assumption.
+  unfold arr_write, enabled, w_en, w_addr, w_data, upd. simpl.
+  destruct (k =? a) eqn:E.
+  - assert (k = a) by lia. subst. rewrite assoc_notin by assumption. rewrite Z.eqb_refl. reflexivity.
+  - destruct (assoc r a); [reflexivity|]. rewrite Z.eqb_sym, E. reflexivity.
+Qed.
+
+Theorem c_init_arr nl size init : (0 < size)%nat -> NoDup (map fst init) ->
+  Forall (fun kv => 0 <= fst kv < 2 ^ 64 /\ 0 <= snd kv < 2 ^ (64 * Z.of_nat nl)) init ->
+  forall a, c_oka a -> c_lookup nl (c_init nl size init) a = arr_init init 0 a.
+Proof.
+  intros Hs Hnd Hr a Ha. destruct (c_init_spec nl size init Hs Hr) as [_ H].
+  rewrite H by assumption. rewrite init_writes_spec by assumption. reflexivity.
+Qed.
+
+(* ------------------------------------------------------------------ *)
+(** * (iv) ROM                                                          *)
+
+Lemma py_list_get_nonneg l a : 0 <= a -> py_list_get l a = nth_error l (Z.to_nat a).
+Proof.
+  intros Ha. unfold py_list_get.
+  destruct ((a <? - Z.of_nat (length l)) || (Z.of_nat (length l) <=? a)) eqn:E.
+  - symmetry. apply nth_error_None. lia.
+  - destruct (a <? 0) eqn:E1; [lia|reflexivity].
+Qed.
+
+Definition rom_spec (bw : Z) (pad : bool) (data : romdata) (a : Z) : rom_result :=
+  match rom_data_at data a with
+  | Some v => if (0 <=? v) && (v <? 2 ^ bw) then RomOk v else RomErr ErrValue
+  | None => match data with
+            | RomFun _ => RomErr ErrFun
+            | RomDict _ => if pad then RomOk 0 else RomErr ErrKey
+            | RomList _ => if pad then RomOk 0 else RomErr ErrIndex
+            end
+  end.
+
+Theorem rom_read_spec aw bw pad data a : 0 <= bw -> 0 <= a < 2 ^ aw ->
+  rom_read aw bw pad data a = rom_spec bw pad data a.
+Proof.
+  intros Hbw Ha. unfold rom_read, rom_spec.
+  destruct ((a <? 0) || (a >? 2 ^ aw - 1)) eqn:E; [lia|].
+  pose proof (pow2_pos bw Hbw) as Hp.
+  destruct data as [l|d|f]; simpl.
+  - rewrite py_list_get_nonneg by lia. destruct (nth_error l (Z.to_nat a)) as [v|].
+    + destruct ((v <? 0) || (v >=? 2 ^ bw)) eqn:E1, ((0 <=? v) && (v <? 2 ^ bw)) eqn:E2;
+        try reflexivity; lia.
+    + destruct pad; [|reflexivity]. destruct ((0 <? 0) || (0 >=? 2 ^ bw)) eqn:E1; [lia|reflexivity].
+  - destruct (assoc d a) as [v|].
+    + destruct ((v <? 0) || (v >=? 2 ^ bw)) eqn:E1, ((0 <=? v) && (v <? 2 ^ bw)) eqn:E2;
+        try reflexivity; lia.
+    + destruct pad; [|reflexivity]. destruct ((0 <? 0) || (0 >=? 2 ^ bw)) eqn:E1; [lia|reflexivity].
+  - destruct (f a) as [v|]; [|reflexivity].
+    destruct ((v <? 0) || (v >=? 2 ^ bw)) eqn:E1, ((0 <=? v) && (v <? 2 ^ bw)) eqn:E2;
+      try reflexivity; lia.
+Qed.
+
+Theorem rom_read_oob aw bw pad data a : a < 0 \/ 2 ^ aw <= a ->
+  rom_read aw bw pad data a = RomErr ErrAddr.
+Proof.
+  intros H. unfold rom_read. destruct ((a <? 0) || (a >? 2 ^ aw - 1)) eqn:E; [reflexivity|lia].
+Qed.
+
+(* a successful read is in range and is the datum *)
+Theorem rom_read_ok aw bw pad data a v : 0 <= bw ->
+  rom_read aw bw pad data a = RomOk v ->
+  0 <= a < 2 ^ aw /\ 0 <= v < 2 ^ bw
+  /\ (rom_data_at data a = Some v \/ (rom_data_at data a = None /\ pad = true /\ v = 0)).
+Proof.
+  intros Hbw H.
+  assert (Ha : 0 <= a < 2 ^ aw).
+  { unfold rom_read in H. destruct ((a <? 0) || (a >? 2 ^ aw - 1)) eqn:E; [discriminate|lia]. }
+  split; [assumption|]. rewrite rom_read_spec in H by assumption. unfold rom_spec in H.
+  destruct (rom_data_at data a) as [x|].
+  - destruct ((0 <=? x) && (x <? 2 ^ bw)) eqn:E; [|discriminate]. injection H as <-.
+    split; [lia|left; reflexivity].
+  - pose proof (pow2_pos bw Hbw).
+    destruct data; try discriminate; destruct pad; try discriminate; injection H as <-;
+      (split; [lia|right; auto]).
+Qed.
+
+Lemma rom_tabulate_spec aw bw pad data n : forall a0 tbl,
+  rom_tabulate aw bw pad data n a0 = Some tbl ->
+  length tbl = n
+  /\ forall i, (i < n)%nat -> rom_read aw bw pad data (a0 + Z.of_nat i) = RomOk (nth i tbl 0).
+Proof.
+  induction n as [|n IH]; intros a0 tbl H; simpl in H.
+  - injection H as <-. split; [reflexivity|]. intros; lia.
+  - destruct (rom_read aw bw pad data a0) as [v|] eqn:E; [|discriminate].
+    destruct (rom_tabulate aw bw pad data n (a0 + 1)) as [r|] eqn:Er; [|discriminate].
+    injection H as <-. destruct (IH _ _ Er) as [Hl Hi]. split; [simpl; lia|].
+    intros [|i] Hlt.
+    + simpl. rewrite Z.add_0_r. assumption.
+    + cbn [nth]. rewrite <- Hi by lia. f_equal. lia.
+Qed.
+
+(* CompiledSimulation / Verilog: indexing the tabulated ROM is reading the ROM *)
+Theorem rom_table_spec aw bw pad data tbl a : 0 <= aw ->
+  rom_table aw bw pad data = Some tbl -> 0 <= a < 2 ^ aw ->
+  rom_read aw bw pad data a = RomOk (nth (Z.to_nat a) tbl 0).
+Proof.
+  intros Haw H Ha. unfold rom_table in H. destruct (rom_tabulate_spec _ _ _ _ _ _ _ H) as [_ Hi].
+  specialize (Hi (Z.to_nat a)). rewrite Z2Nat.id in Hi by lia. simpl in Hi. apply Hi. lia.
+Qed.
+
+(* ------------------------------------------------------------------ *)
+(** * Packaged statements from the initial state of each simulator      *)
+
+Definition hist_ok (h h' : list cycle) : Prop :=
+  Forall cycle_ok h /\ Forall2 cycle_perm h h'.
+
+Theorem sim_from_init dflt init h h' : hist_ok h h' ->
+  fst (sim_mem_run dflt init h') = hist_reads (arr_init init dflt) [] h.
+Proof.
+  intros [Hok Hp].
+  destruct (sim_refines_array dflt h h' init (arr_init init dflt) (fun a => eq_refl) Hok Hp) as [H _].
+  rewrite H. apply arr_run_is_last_write; [assumption|reflexivity].
+Qed.
+
+Theorem fast_from_init dflt init h h' : hist_ok h h' ->
+  fst (fast_mem_run dflt init h') = hist_reads (arr_init init dflt) [] h.
+Proof. intros. rewrite fast_run_eq_sim. apply sim_from_init. assumption. Qed.
+
+Definition c_init_ok (nl : nat) (init : list (Z * Z)) : Prop :=
+  NoDup (map fst init)
+  /\ Forall (fun kv => 0 <= fst kv < 2 ^ 64 /\ 0 <= snd kv < 2 ^ (64 * Z.of_nat nl)) init.
+
+Theorem comp_from_init nl size init h h' : (0 < size)%nat -> c_init_ok nl init ->
+  hist_ok h h' -> Forall (cyc_adm (c_okw nl) c_oka) h' ->
+  fst (comp_mem_run nl (c_init nl size init) h') = hist_reads (arr_init init 0) [] h.
+Proof.
+  intros Hs [Hnd Hr] [Hok Hp] Hadm.
+  destruct (c_init_spec nl size init Hs Hr) as [Hne _].
+  destruct (comp_refines_array nl h h' (c_init nl size init) (arr_init init 0) Hne
+              (c_init_arr nl size init Hs Hnd Hr) Hok Hp Hadm) as [H _].
+  rewrite H. apply arr_run_is_last_write; [assumption|reflexivity].
+Qed.
+
+(* the three back-ends therefore agree with each other *)
+Corollary backends_agree nl size init h h1 h2 h3 : (0 < size)%nat -> c_init_ok nl init ->
+  hist_ok h h1 -> hist_ok h h2 -> hist_ok h h3 -> Forall (cyc_adm (c_okw nl) c_oka) h3 ->
+  fst (sim_mem_run 0 init h1) = fst (fast_mem_run 0 init h2)
+  /\ fst (fast_mem_run 0 init h2) = fst (comp_mem_run nl (c_init nl size init) h3).
+Proof.
+  intros. rewrite (sim_from_init 0 init h h1), (fast_from_init 0 init h h2),
+    (comp_from_init nl size init h h3) by assumption. auto.
+Qed.
+
+(* -- corollaries in the property's words (array level; they transfer to every
+      back-end through the refinement theorems) -- *)
+
+(* read-during-write returns the old word; the new word is visible from the next cycle *)
+Corollary read_during_write A a d rs :
+  fst (arr_run A [([(a, d, 1)], [a]); ([], a :: rs)]) = [[A a]; d :: map (upd A a d) rs].
+Proof.
+  cbn. unfold arr_write, enabled, w_en, w_addr, w_data. simpl. rewrite upd_same. reflexivity.
+Qed.
+
+(* a disabled write is a no-op *)
+Corollary disabled_write_noop A ws rs :
+  Forall (fun w => w_en w = 0) ws ->
+  forall a, snd (arr_step A (ws, rs)) a = A a.
+Proof.
+  intros H a. unfold arr_step. simpl. apply write_untouched. intros w Hin He.
+  rewrite Forall_forall in H. specialize (H w Hin). unfold enabled in He. rewrite H in He. discriminate.
+Qed.
+
+Corollary disabled_write_noop_dict d ws :
+  Forall (fun w => w_en w = 0) ws -> fold_left sim_mem_update ws d = d.
+Proof.
+  induction ws as [|w r IH]; intros H; simpl; [reflexivity|].
+  inversion H as [|? ? Hw Hr]; subst. unfold sim_mem_update at 2. unfold enabled. rewrite Hw. simpl.
+  apply IH. assumption.
+Qed.
+
+Corollary disabled_write_noop_hashmap nl (h : cmap) ws :
+  Forall (fun w => w_en w = 0) ws -> fold_left (c_write nl) ws h = h.
+Proof.
+  induction ws as [|w r IH]; intros H; simpl; [reflexivity|].
+  inversion H as [|? ? Hw Hr]; subst. unfold c_write at 2. unfold enabled. rewrite Hw. simpl.
+  apply IH. assumption.
+Qed.
+
+(* any number of read ports compose: each port sees what it would see alone, and
+   reading does not disturb the state *)
+Corollary read_ports_compose A ws rs1 rs2 :
+  fst (arr_step A (ws, rs1 ++ rs2)) = fst (arr_step A (ws, rs1)) ++ fst (arr_step A (ws, rs2))
+  /\ snd (arr_step A (ws, rs1 ++ rs2)) = snd (arr_step A (ws, [])).
+Proof. unfold arr_step. simpl. rewrite map_app. auto. Qed.
+
+(* any number of write ports to distinct addresses compose: each enabled port's word
+   lands, every other address keeps its word *)
+Corollary write_ports_compose A c : cycle_ok c ->
+  (forall w, In w (fst c) -> enabled w = true -> snd (arr_step A c) (w_addr w) = w_data w)
+  /\ (forall a, ~ In a (enabled_addrs (fst c)) -> snd (arr_step A c) a = A a).
+Proof.
+  intros Hok. unfold arr_step. simpl. split.
+  - intros w Hin He. apply write_lands; assumption.
+  - intros a Hn. apply write_untouched. intros w Hin He Heq. apply Hn.
+    unfold enabled_addrs. apply in_map_iff. exists w. split; [assumption|].
+    apply filter_In. auto.
+Qed.
+
+(* CompiledSimulation keys the hash map on the low 64-bit limb of the address only:
+   for addrwidth > 64 the array property is FALSE of the faithful model *)
+Theorem comp_wide_addr_refuted :
+  exists h, Forall cycle_ok h
+            /\ fst (comp_mem_run 1 (c_init 1 c_size []) h) <> fst (arr_run (arr_init [] 0) h).
+Proof.
+  exists [([(2 ^ 64 + 5, 9, 1)], [0]); ([], [5])]. split.
+  - repeat constructor; simpl; intuition.
+  - vm_compute. discriminate.
+Qed.
+
+(* -- statements in the exact shape exported by Props/C08.v -- *)
+Theorem arr_run_last_write_from_start A0 h :
+  Forall cycle_ok h -> fst (arr_run A0 h) = hist_reads A0 [] h.
+Proof. intros H. apply arr_run_is_last_write; [assumption|reflexivity]. Qed.
+
+Theorem sim_dict_keys_unique dflt h d :
+  NoDup (map fst d) -> NoDup (map fst (snd (sim_mem_run dflt d h))).
+Proof. apply sim_run_nodup. Qed.
+
+Theorem c_init_arr_ok nl size init : (0 < size)%nat -> c_init_ok nl init ->
+  forall a, c_oka a -> c_lookup nl (c_init nl size init) a = arr_init init 0 a.
+Proof. intros Hs [Hn Hr]. apply c_init_arr; assumption. Qed.
